@@ -156,6 +156,41 @@ func (e *Engine) SolveAll(workers int) {
 	}
 	close(jobs)
 	wg.Wait()
+	// second pass: a query that ran out of time (not one the solver gave up on quickly) is retried
+	// with three times the budget and little competing load, so that a busy machine does not turn a
+	// provable obligation into an alarm
+	var slow []job
+	for _, o := range e.obls {
+		if o.Vacuous {
+			continue
+		}
+		for _, q := range o.Queries {
+			if (q.Result == "timeout" || q.Result == "unknown") && q.Ms >= int64(e.timeoutS)*500 {
+				slow = append(slow, job{o, q})
+			}
+		}
+	}
+	if len(slow) > 0 && len(slow) <= 24 {
+		retry := make(chan job, len(slow))
+		for _, j := range slow {
+			retry <- j
+		}
+		close(retry)
+		var wg2 sync.WaitGroup
+		for i := 0; i < 4; i++ {
+			wg2.Add(1)
+			go func() {
+				defer wg2.Done()
+				for j := range retry {
+					first := j.q.Ms
+					solveQuery(j.q, e.timeoutS*3, e.tier == "thorough", false)
+					j.q.Ms += first
+					j.q.Retried = true
+				}
+			}()
+		}
+		wg2.Wait()
+	}
 	for _, o := range e.obls {
 		if o.Status == "error" {
 			continue
